@@ -8,7 +8,9 @@ float and integer heights.
 Oracle: vf/oracles/km.py (paper eqs. 9-36 with scipy.special) cell by cell; >= 0; zero in downwind cells;
 symmetric about the wind axis; sum over cells -> incomplete-gamma mass x crosswind capture (scipy.quad) as the
 grid is refined; rot90 identities at multiples of 90 degrees; typed variants equal the float result;
-estimateZ0 equals the inverted diabatic log law and is invariant under a common rotation."""
+estimateZ0 equals the inverted diabatic log law, its smoothed form equals the brute-force median over the circular
+direction window (dense lattice), and it is invariant under a common rotation.  Call HISTORIES: every ordered sequence of
+(receptor, wind direction) calls on one grid up to depth 2 (thorough 3) must give each call its own closed form."""
 
 import itertools
 import math
@@ -140,12 +142,45 @@ def case_mass(case):
     lab = "zm=%g z0=%g ws=%g ustar=%g L=%g sigma_v=%g (peak at %.0f m)" % (zm, z0, ws, us, L, sv, peak)
     if resolved:
         for a, b in zip(errs[:-1], errs[1:]):
-            if b > 1.05 * a + 1e-6:
+            if b > 1.05 * a + 1e-4:  # below 1e-4 the midpoint sum has converged; its last digits are not monotone
                 v.append({"sub": "mass", "sig": "mass/monotone", "msg": "%s: |sum - captured mass|/mass along the resolution ladder %s is %s - not decreasing" % (lab, ladder, ["%.2e" % e for e in errs])})
                 break
         if errs[-1] > 2e-2:
             v.append({"sub": "mass", "sig": "mass/limit", "msg": "%s: at 2.5 m the cell sum still differs from the captured mass %.6f (gammaincc %.6f) by %.2e" % (lab, I, G, errs[-1])})
     return {"v": v, "nt": bool(resolved), "n": len(ladder), "obs": {"captured_mass": I, "gammaincc": G, "errors": ["%.2e" % e for e in errs], "resolved": bool(resolved)}}
+
+
+def case_history(case):
+    """call histories on ONE output grid: every ordered sequence of (receptor, wind direction) calls up to the depth
+    bound; each result must equal the closed form for ITS OWN arguments whatever was computed before"""
+    zm, z0, ws, us, L, sv = 10.0, 0.1, 3.0, 0.4, -50.0, 0.8
+    dom, res = [-100.0, 300.0, -150.0, 150.0], 10.0
+    v = []
+    n = 0
+    for k, (mxy, wd) in enumerate(case["ops"]):
+        gx, gy, f = _call(zm, z0, ws, us, L, sv, dom, res, list(mxy), wd=wd)
+        n += 1
+        xr, yr = (gx - mxy[0], gy - mxy[1]) if wd is None else km.rotate(gx - mxy[0], gy - mxy[1], wd)
+        o, _ = km.footprint(xr, yr, zm, z0, ws, us, L, sv)
+        ok = np.abs(xr) > 1e-9
+        e = np.abs(f - o * res**2)[ok].max() / max((o * res**2).max(), 1e-300)
+        if not e <= 1e-9:
+            v.append({"sub": "history", "sig": "history", "msg": "call %d of the history %s on one grid differs from the closed form for its own receptor/wind direction by %.2e of the maximum" % (k, case["ops"], e)})
+            break
+    return {"v": v, "nt": len(case["ops"]) > 1, "n": n}
+
+
+def _z0_oracle(zmv, ws, wd, us, L, hw):
+    """circular-window median of the log-law inversions, by brute force"""
+    raw = np.array([km.z0_from_loglaw(zmv, ws[i], us[i], L[i]) for i in range(len(ws))])
+    raw = np.where(raw > 1000, np.nan, raw)
+    out = np.full(len(ws), np.nan)
+    for i in range(len(ws)):
+        kk = math.floor(wd[i])
+        lo, hi = kk - hw, kk + 1 + hw
+        sel = [j for j in range(len(ws)) if any(lo <= wd[j] + s < hi for s in (-360.0, 0.0, 360.0))]
+        out[i] = np.nanmedian(raw[sel])
+    return out
 
 
 def case_z0(case):
@@ -166,6 +201,26 @@ def case_z0(case):
         want = np.where(want > 1000, np.nan, want)
         if not np.allclose(raw, want, rtol=1e-10, atol=0, equal_nan=True):
             v.append({"sub": "z0-loglaw", "sig": "z0-loglaw/%s" % ("integer" if "int" in ztype else "float"), "msg": "estimateZ0 (no smoothing, zm=%g as %s) differs from the inverted diabatic log law by up to %.2e (relative)" % (zmv, ztype, np.nanmax(np.abs(raw / want - 1)))})
+        # dense half-integer lattice (one observation per 1-degree bin), direction-dependent values: brute-force oracle
+        dwd = np.arange(0.5, 360.0, 1.0)
+        nd = len(dwd)
+        dzm = np.full(nd, zmv).astype(zm.dtype)
+        dws = 2.0 + 1.5 * np.sin(np.radians(dwd * 3)) ** 2 + (np.arange(nd) % 7) * 0.13
+        dus = 0.25 + (np.arange(nd) % 5) * 0.07
+        dL = np.array([(-30.0, -400.0, 1e9, 150.0, 40.0)[i % 5] for i in range(nd)])
+        for win in (22, 10, 45, 1):
+            got = estimateZ0(dzm, dws, dwd, dus, dL, half_wd_win=win)
+            want = _z0_oracle(zmv, dws, dwd, dus, dL, win)
+            n += 1
+            if not np.allclose(got, want, rtol=1e-10, atol=0, equal_nan=True):
+                i = int(np.nanargmax(np.abs(got / want - 1)))
+                v.append({"sub": "z0-window", "sig": "z0-window", "msg": "estimateZ0 (window %d, zm=%g as %s): observation at %.1f deg gets %.8g, the median over its circular direction window is %.8g" % (win, zmv, ztype, dwd[i], got[i], want[i])})
+            for rot in (1, 23, 90, 137, 338):
+                r = estimateZ0(dzm, dws, (dwd + rot) % 360.0, dus, dL, half_wd_win=win)
+                n += 1
+                if not np.allclose(r, got, rtol=1e-12, atol=0, equal_nan=True):
+                    v.append({"sub": "z0-rotation", "sig": "z0-rotation", "msg": "estimateZ0 (window %d, dense lattice, zm=%g as %s) changes under a common rotation by %d degrees (max rel. change %.2e)" % (win, zmv, ztype, rot, np.nanmax(np.abs(r / got - 1)))})
+                    break
         for win in (22, 5):
             base = estimateZ0(zm, ws, rng_wd, us, L, half_wd_win=win)
             for rot in (1, 37, 90, 211, 359):
@@ -194,3 +249,7 @@ def run(ctx):
     ctx.run_cases(case_types, _chunks(ints, 8), sub="scalar-types", chunksize=1)
     ctx.run_cases(case_mass, [{"p": list(p), "tier": ctx.tier} for p in phys[:: (2 if ctx.tier == "quick" else 1)]], sub="captured-mass", chunksize=1)
     ctx.run_cases(case_z0, [{"z0": "lattice"}], sub="estimateZ0", serial=True)
+    alphabet = [[list(m), w] for m in ((0.0, 0.0), (10.0, -5.0), (40.0, 20.0)) for w in (None, 30.0)]
+    depth = 2 if ctx.tier == "quick" else 3
+    hist = [{"ops": list(h)} for d in range(1, depth + 1) for h in itertools.product(alphabet, repeat=d)]
+    ctx.run_cases(case_history, hist, sub="call-histories")
